@@ -344,6 +344,20 @@ func c16Run(t *testing.T, run *Run, sc c16Scenario, rng *rand.Rand) {
 		fail("acme-wildcard-accepted", "deploy with automatic TLS and host *.acme.example was accepted")
 		return
 	}
+	// the same through a redeploy: an automatic-TLS service on a plain host, redeployed with the same
+	// TLS settings and a wildcard host added
+	first := Cmd{Kind: "deploy", Svc: "acmeplain", Targets: []string{"svc-acmeplain:80"}, Hosts: []string{"acme-plain.example"}, TLS: "acme", DeployTO: 2 * time.Second, DrainTO: time.Second}
+	if rec := first.Exec(w, w.Router); rec.Err != "" {
+		fail("deploy-failed", "deploy with automatic TLS on a plain host failed: %s", rec.Err)
+		return
+	}
+	again := first
+	again.Hosts = []string{"acme-plain.example", "*.acme-plain.example"}
+	if rec := again.Exec(w, w.Router); rec.Err == "" {
+		fail("acme-wildcard-accepted:redeploy", "redeploy adding the wildcard host *.acme-plain.example to an automatic-TLS service was accepted")
+		return
+	}
+	w.Remove("acmeplain")
 	// (d) names not bound to an automatic-TLS service never cause a certificate request
 	w.mu.Lock()
 	acmeDials := w.DialAttempts["acme.invalid:80"]
